@@ -471,7 +471,8 @@ void c05_reentrant_part() {
             for (;;) {
                 std::vector<Script> scripts; for (int i = 0; i < n; i++) scripts.push_back(opts[idx[i]]);
                 bool uses_unmute = false, has_notify = false; for (auto &sc : scripts) for (auto &a : sc) { uses_unmute |= a.act == A_UNMUTE; has_notify |= a.act == A_NOTIFY; }
-                if (has_notify) for (unsigned mask = 0; mask < (uses_unmute ? 1u << n : 1u); mask++) {
+                (void)has_notify;      // callbacks that only change the subscriptions count as well: an observer a callback has removed must not be invoked in that round either
+                for (unsigned mask = 0; mask < (uses_unmute ? 1u << n : 1u); mask++) {
                     if (deadline_passed()) { shm->exhaustive = 0; _exit(0); }
                     mark(cfg_str(n, mask, scripts));
                     run_config(n, mask, scripts);
